@@ -312,12 +312,6 @@ func (p *printer) writeString(pos token.Position, s string, isLit bool) {
 		// tabwriter.Escape bytes since they do not appear in legal
 		// UTF-8 sequences.
 		p.output = append(p.output, tabwriter.Escape)
-		switch p.lastTok {
-		case token.CSTRING:
-			p.output = append(p.output, 'c')
-		case token.PYSTRING:
-			p.output = append(p.output, 'p', 'y')
-		}
 	}
 
 	if debug {
@@ -953,6 +947,12 @@ func (p *printer) print(args ...any) {
 
 		case *ast.BasicLit:
 			data = x.Value
+			switch x.Kind { // the prefix belongs to the literal, not to whatever protected text is written next (a comment)
+			case token.CSTRING:
+				data = "c" + data
+			case token.PYSTRING:
+				data = "py" + data
+			}
 			isLit = true
 			impliedSemi = true
 			p.lastTok = x.Kind
